@@ -33,9 +33,14 @@ def find_opener(ctx):
     for f in ctx.repo.all_funcs():
         if not (f.is_ctxmgr and f.cls is not None):
             continue
+        def is_map(v, depth=0):
+            if isinstance(v, ast.Call) and dotted(v.func) in ('np.memmap', 'numpy.memmap'):
+                return True
+            if isinstance(v, ast.Name) and depth < 3:
+                return any(is_map(x, depth + 1) for x, _ in defs_of(f.node, v.id))
+            return False
         for n in own_nodes(f.node):
-            if isinstance(n, ast.Assign) and isinstance(n.value, ast.Call) and \
-                    dotted(n.value.func) == 'np.memmap':
+            if isinstance(n, ast.Assign) and is_map(n.value):
                 for t in n.targets:
                     d = dotted(t)
                     if d and d.startswith('self.'):
